@@ -699,15 +699,17 @@ func (idx *indexer) indexSince(txID uint64) error {
 						txmd = prevTxHdr.Metadata.Bytes()
 					}
 
-					var kvmd *KVMetadata
+					kvmd := NewKVMetadata()
 
 					if prevEntry.Metadata() != nil {
-						kvmd = prevEntry.Metadata()
-					} else {
-						kvmd = NewKVMetadata()
+						// metadata read from a tx entry is read-only, a writable copy is needed
+						err = kvmd.unsafeReadFrom(prevEntry.Metadata().Bytes())
+						if err != nil {
+							return err
+						}
 					}
 
-					kvmd.AsDeleted(true)
+					err = kvmd.AsDeleted(true)
 					if err != nil {
 						return err
 					}
